@@ -2364,7 +2364,7 @@ where
     }
 
     /// Refuse a send: report the error and release the identifier the packet was holding.
-    fn refuse_send(
+    pub(crate) fn refuse_send(
         &mut self,
         packet_id: Option<PacketIdType>,
         error: MqttError,
